@@ -48,6 +48,9 @@ def generate(seed, tier):
         if host_phase and x < 0.25:
             ops.append({'op': 'src', 'src': ro.choice(PHASE_TEXTS)})
             continue
+        if x < 0.075 and x >= 0.07:
+            ops.append({'op': 'src', 'src': '\n'.join('w%d = %d' % (i, i) for i in range(60)) + '\nw59'})       # sixty statements
+            continue
         if x < 0.13:
             # spellings the renderer never produces: backslashes in non-raw strings; "methods" that are not builtins,
             # applied to plain data as call / method / pipe (today: undefined function)
